@@ -34,6 +34,11 @@ PROPS = {
     "C18": dict(modules=["Cvss.Props.C18", "Cvss.Props.ParseTieTransfer", "Cvss.Props.C18v2", "Cvss.Props.C18v3", "Cvss.Props.C18v4", "Cvss.Findings.C18v2"], ties=["Cvss.Props.ParseTie"], streams=["defect", "obj", "parse"]),
 }
 
+# the packages a property speaks about: a translator refusal, a model difference or a Spec violation in another package is
+# not this property's business (it is reported by the properties of that package)
+VERSIONS = {"C03": ["30", "31"], "C04": ["40"], "C05": ["20"], "C15": ["30", "31", "40"], "C16": ["40"]}
+ALL_VERSIONS = ["20", "30", "31", "40"]
+
 # every stream also validates the model (DIFF lines); the float stream validates Base/F64 for the score properties
 EXTRA_STREAMS = {"C03": ["float"], "C04": ["float"], "C05": ["float"], "C11": ["float"], "C15": ["float"]}
 
